@@ -508,7 +508,7 @@ func traceLines(p string) int {
 // RunC11: invalid build graphs are rejected before anything runs; valid ones accepted.
 func RunC11(tier string) int {
 	run := report.New("C11", tier, "exploration",
-		"seeded small workspaces (2-4 nodes: targets, test targets, testonly targets, aliases; packages '', p, p/sub; arbitrary edge sets incl. self-loops, alias cycles, undefined and duplicate labels within and across BUILD.json/BUILD.yaml; outputs drawn from spellings of the same places - x, ./x, a/../x, trailing slashes, nested-package aliasing, file inside dir, nested dirs, ../ escapes for file and dir outputs; escaping inputs), plus two restricted families whose only possible defect is an output conflict resp. a test/testonly dependency reached directly or through alias chains with several legitimate and offending dependants; each written in two target orders; "+
+		"seeded small workspaces (2-4 nodes: targets, test targets, testonly targets, aliases; packages '', p, p/sub; arbitrary edge sets incl. self-loops, alias cycles, undefined and duplicate labels within and across BUILD.json/BUILD.yaml; outputs drawn from spellings of the same places - x, ./x, a/../x, trailing slashes, nested-package aliasing, file inside dir, nested dirs, ../ escapes for file and dir outputs; escaping inputs), plus two restricted families whose only possible defect is an output conflict resp. a test/testonly dependency reached directly or through alias chains with several legitimate and offending dependants; each written in two target orders, every third also as a lived-in copy (some declared outputs already on disk) entered through a symlinked working directory; "+
 			"oracle: reference validator written from the statement; `grog check` must accept exactly the valid graphs in both orders, `grog build` must agree and leave an empty command trace on rejection; non-trivial = graph with at least one dependency edge and one output; distinct = defect-class set + shape")
 	st, err := e1.Prepare(run, false)
 	if err != nil {
@@ -544,11 +544,50 @@ func RunC11(tier string) int {
 		if valid {
 			run.Count("valid_graphs", 1)
 		}
-		for order := 0; order < 2; order++ {
+		orders := 2
+		if i%3 == 0 {
+			orders = 3 // a third copy: lived-in workspace entered through a symlinked path (below)
+		}
+		for order := 0; order < orders; order++ {
 			ws := filepath.Join(dir, fmt.Sprintf("ws%d", order))
 			if err := w.write(ws, order == 1); err != nil {
 				run.Infra(err.Error())
 				return
+			}
+			if order == 2 {
+				// what sits in the workspace and how the workspace was reached must not change the
+				// verdict: some declared outputs already exist (files / directories from an earlier
+				// build of an earlier, valid graph), and the working directory is a symlinked path
+				made := 0
+				for _, t := range w.Targets {
+					for _, o := range t.Outs {
+						if !r.Chance(2, 3) {
+							continue
+						}
+						isDir := strings.HasPrefix(o, "dir::")
+						p := filepath.Join(ws, filepath.FromSlash(t.Pkg), filepath.FromSlash(strings.TrimPrefix(o, "dir::")))
+						if !strings.HasPrefix(p, ws+string(filepath.Separator)) {
+							continue
+						}
+						if isDir {
+							if os.MkdirAll(p, 0755) == nil {
+								made++
+							}
+						} else if os.MkdirAll(filepath.Dir(p), 0755) == nil {
+							if fi, err := os.Stat(p); err != nil || !fi.IsDir() {
+								if os.WriteFile(p, []byte("from an earlier build\n"), 0644) == nil {
+									made++
+								}
+							}
+						}
+					}
+				}
+				link := filepath.Join(dir, "ws_via_symlink")
+				if os.Symlink(ws, link) == nil {
+					ws = link
+				}
+				run.Count("lived_in_workspaces_via_symlink", 1)
+				run.Count("declared_outputs_already_on_disk", made)
 			}
 			m := &grog.Machine{Bin: st.Grog, Workspace: ws, Root: filepath.Join(dir, "root"), Home: filepath.Join(dir, "home"),
 				Trace: filepath.Join(dir, fmt.Sprintf("trace%d", order)), VctlBin: st.Vctl}
